@@ -418,7 +418,7 @@ func (s *rqSim) stepOnce(closing bool) {
 			s.ss.apply(k, m == 0, m == 1, idx)
 			s.emit(rqEv{Op: "SSApply", Key: k, Flag: m == 0, Flag2: m == 1, Val: idx})
 		}
-	case c < 97 && !closing: // raft log query
+	case c < 97: // raft log query (also after the close sequence started: it must then be refused)
 		r, err := s.lq.add(1, 5, 100)
 		ev := rqEv{Op: "LQAdd", Err: errName(err)}
 		if err == nil {
